@@ -17,7 +17,13 @@ switch and nothing else, a `continue` reaches the enclosing loop's continue targ
 `return` is in the theorem as well (signal `ret`: the RETURN instruction ends the frame, loops and
 switches pass the signal on, `body_correct` covers bodies that fall off their end or return).
 
-PARTIAL: `range`, tagged switches' hidden tag variable and the staged peephole passes are
+`range` is in the theorem (`rng`: the item leaf runs once, RANGE installs the iterator and jumps to
+ITER, ITER either assigns the next pair and jumps back to the first body instruction or falls
+through; `break` in the body lands just past ITER, `continue` on ITER; the iterator is abstract:
+`rinit`, `rnext`, `rdone`): any number of passes ending normally or by `continue`, then exhaustion,
+a pass that breaks, or one that returns (`rng_prefix`, `rng_run`).
+
+PARTIAL: tagged switches' hidden tag variable and the staged peephole passes are
 not in this theorem; they are covered by the instruction-for-instruction correspondence of the
 emitted jump skeleton, by C07's verifier on all emitted code, and by Go-toolchain runs of nests
 enumerated exhaustively for small depths.
@@ -70,6 +76,61 @@ theorem rw_swc (ok : LeavesOK M L) (db dc : Nat) (c : Nat) (a r : Stmt) :
   rw [e, rw_append, rw_noPH _ _ _ (ok.cnd_noPH c), rw_cons_noPH _ _ _ _ (jump_noPH _ _ (by decide)),
     rw_append, rw_cons_noPH _ _ _ _ (jump_noPH _ _ (by decide)), rw_rwB]
   simp only [List.length_cons, rw_length]
+
+/-- `n` full passes of a `range` body: from the ITER instruction back to it, the iterator asked once
+    per pass -/
+theorem rng_prefix {C : List Instr} {pb len : Nat} {stk : List Bool} {r kv : Int} {n : Nat} {A S : Nat → σ}
+    (hI : C[pb + len]? = some { op := "ITER", a := r, b := kv, c := -((len : Int) + 1) })
+    (hnext : ∀ i, i < n → M.rnext r kv (S i) = some (A i))
+    (hbody : ∀ i, i < n → Star M L C (pb, stk, A i) (pb + len, stk, S (i+1))) :
+    ∀ k, k ≤ n → Star M L C (pb + len, stk, S 0) (pb + len, stk, S k) := by
+  intro k
+  induction k with
+  | zero => intro _; exact Star.refl
+  | succ k ih =>
+    intro hk
+    have h1 := ih (by omega)
+    have st : Step M L C (pb + len, stk, S k) (pb, stk, A k) :=
+      Step.iterT hI rfl (hnext k (by omega)) (by push_cast; omega)
+    exact Star.trans M L h1 (Star.step st (hbody k (by omega)))
+
+/-- the common part of the three `range` outcomes: the item leaf, RANGE, and the full passes bring
+    the machine to the ITER instruction in state `S n` -/
+theorem rng_run (ok : LeavesOK M L) {r kv : Int} {it : Nat} {b : Stmt} {s : σ} {n : Nat} {A S : Nat → σ} {O : Nat → Out}
+    {C : List Instr} {pc : Nat} {stk : List Bool}
+    (h0 : S 0 = M.rinit r (M.act it s))
+    (hnext : ∀ i, i < n → M.rnext r kv (S i) = some (A i))
+    (hO : ∀ i, i < n → O i ≠ .brk ∧ O i ≠ .ret)
+    (ihB : ∀ i, i < n → ∀ (C : List Instr) (pc db dc : Nat) (stk : List Bool), CodeAt C pc (rw db dc (compile L b)) →
+      Star M L C (pc, stk, A i) (tgt C.length pc (compile L b).length db dc (O i), stk, S (i+1)) ∧
+      Star M L C (entry2 L pc b, stk, A i) (tgt C.length pc (compile L b).length db dc (O i), stk, S (i+1)))
+    (hc : CodeAt C pc (compile L (.rng r kv it b))) :
+    Star M L C (pc, stk, s) (pc + (L.act it).length + 1 + (compile L b).length, stk, S n) ∧
+    CodeAt C (pc + (L.act it).length + 1) (rw 1 0 (compile L b)) ∧
+    C[pc + (L.act it).length + 1 + (compile L b).length]? =
+      some { op := "ITER", a := r, b := kv, c := -(((compile L b).length : Int) + 1) } := by
+  simp only [compile, List.append_assoc, List.singleton_append] at hc
+  have t1 := run_act ok (stk := stk) (s := s) hc.left
+  have hR := hc.right
+  have t2 : Step M L C (pc + (L.act it).length, stk, M.act it s)
+      (pc + (L.act it).length + 1 + (compile L b).length, stk, M.rinit r (M.act it s)) :=
+    Step.range hR.head rfl (by push_cast; omega)
+  have hB := hR.tail.left
+  have hI := hR.tail.right.head
+  simp only [rw_length] at hI
+  have hbody : ∀ i, i < n → Star M L C (pc + (L.act it).length + 1, stk, A i)
+      (pc + (L.act it).length + 1 + (compile L b).length, stk, S (i+1)) := by
+    intro i hi
+    have h := (ihB i hi C _ 1 0 stk hB).1
+    have ho := hO i hi
+    cases hoi : O i with
+    | normal => rw [hoi] at h; simpa [tgt, offs] using h
+    | cont => rw [hoi] at h; simpa [tgt, offs] using h
+    | brk => exact absurd hoi ho.1
+    | ret => exact absurd hoi ho.2
+  have pre := rng_prefix hI hnext hbody n (Nat.le_refl n)
+  rw [h0] at pre
+  exact ⟨Star.trans M L t1 (Star.step t2 pre), hB, hI⟩
 
 theorem compile_correct (ok : LeavesOK M L) {s : Stmt} {st : σ} {o : Out} {st' : σ} (h : Exec M s st o st') :
     ∀ (C : List Instr) (pc db dc : Nat) (stk : List Bool), CodeAt C pc (rw db dc (compile L s)) →
@@ -435,6 +496,38 @@ theorem compile_correct (ok : LeavesOK M L) {s : Stmt} {st : σ} {o : Out} {st' 
       cases o <;> simp [tgt] <;> omega
     rw [e] at pre
     exact ⟨pre, pre⟩
+  | @rngEnd r kv it b s n A S O h0 hnext _ hO hend ihB =>
+    intro C pc db dc stk hc
+    rw [rw_noPH _ _ _ (rng_code_noPH ok r kv it b)] at hc
+    obtain ⟨run, _, hI⟩ := rng_run ok (stk := stk) h0 hnext hO ihB hc
+    have fin := Step.iterF (M := M) (L := L) (stk := stk) hI rfl hend
+    have all := Star.trans M L run (Star.one M L fin)
+    simp only [compile, entry2, tgt, offs, List.length_append, List.length_cons, List.length_nil, rw_length, Nat.add_zero]
+    rw [show pc + ((L.act it).length + (0 + 1) + (compile L b).length + (0 + 1))
+          = pc + (L.act it).length + 1 + (compile L b).length + 1 by omega]
+    exact ⟨all, all⟩
+  | @rngBrk r kv it b s a s' n A S O h0 hnext _ hO hsome _ ihB ihl =>
+    intro C pc db dc stk hc
+    rw [rw_noPH _ _ _ (rng_code_noPH ok r kv it b)] at hc
+    obtain ⟨run, hB, hI⟩ := rng_run ok (stk := stk) h0 hnext hO ihB hc
+    have st : Step M L C (pc + (L.act it).length + 1 + (compile L b).length, stk, S n)
+        (pc + (L.act it).length + 1, stk, a) := Step.iterT hI rfl hsome (by push_cast; omega)
+    have h3 := (ihl C _ 1 0 stk hB).1
+    have all := Star.trans M L run (Star.step st h3)
+    simp only [compile, entry2, tgt, offs, List.length_append, List.length_cons, List.length_nil, rw_length, Nat.add_zero] at all ⊢
+    rw [show pc + ((L.act it).length + (0 + 1) + (compile L b).length + (0 + 1))
+          = pc + (L.act it).length + 1 + (compile L b).length + 1 by omega]
+    exact ⟨all, all⟩
+  | @rngRet r kv it b s a s' n A S O h0 hnext _ hO hsome _ ihB ihl =>
+    intro C pc db dc stk hc
+    rw [rw_noPH _ _ _ (rng_code_noPH ok r kv it b)] at hc
+    obtain ⟨run, hB, hI⟩ := rng_run ok (stk := stk) h0 hnext hO ihB hc
+    have st : Step M L C (pc + (L.act it).length + 1 + (compile L b).length, stk, S n)
+        (pc + (L.act it).length + 1, stk, a) := Step.iterT hI rfl hsome (by push_cast; omega)
+    have h3 := (ihl C _ 1 0 stk hB).1
+    have all := Star.trans M L run (Star.step st h3)
+    simp only [entry2, tgt] at all ⊢
+    exact ⟨all, all⟩
 
 /-- **C06 (core).** A whole function body (no enclosing loop: a stray `break`/`continue` does not
     occur in valid Go) runs from its first instruction to just past its last one — whether it falls
@@ -488,5 +581,29 @@ example : Exec demoSem (.loop 3 (.seq (.ift 0 .brk) (.act 5)) 0) [] .normal [103
 example : Exec demoSem (.loop 3 (.swc 0 (.ret 9) (.swd (.act 5))) 0) [] .ret [103, 100, 5, 103, 100, 9] := by
   refine .loopT (by decide) (.swcF (by decide) (.swdN .act (by decide))) (by decide) (by decide) ?_
   exact .loopR (by decide) (.swcT (by decide) .ret (by decide))
+
+/-- a `range` demo: the state carries the trace and what is left of the one live iterator -/
+def demoSemR : Sem (List Nat × Nat) :=
+  { act := fun n s => if n = 0 then s else (s.1 ++ [n], s.2),
+    cval := fun k s => if k = 0 then decide (s.1.length > 2) else decide (s.1.length < 10),
+    ceff := fun k s => (s.1 ++ [100 + k], s.2),
+    rinit := fun _ s => (s.1, 3),
+    rnext := fun _ _ s => if s.2 = 0 then none else some (s.1 ++ [200 + s.2], s.2 - 1),
+    rdone := fun _ s => s }
+
+/-- `for … range <3 items> { if c(0) { break }; t(5) }`: two full passes, the third breaks
+    (the item leaf 0 is the empty code here; `c(0)` holds once more than two leaves ran) -/
+example : Exec demoSemR (.rng 1 0 0 (.seq (.ift 0 .brk) (.act 5))) ([], 0) .normal
+    ([203, 100, 5, 202, 100], 1) := by
+  refine Exec.rngBrk (n := 1)
+    (S := fun i => if i = 0 then ([], 3) else ([203, 100, 5], 2))
+    (A := fun _ => ([203], 2)) (O := fun _ => .normal) (a := ([203, 100, 5, 202], 1))
+    rfl ?_ ?_ ?_ rfl ?_
+  · intro i hi; have : i = 0 := by omega
+    subst this; rfl
+  · intro i hi; have : i = 0 := by omega
+    subst this; exact .seqN (.iftF (by decide)) .act
+  · intro i _; exact ⟨by decide, by decide⟩
+  · exact .seqX (.iftT (by decide) .brk) (by decide)
 
 end Goat.Props.C06
